@@ -55,8 +55,10 @@ CATALOG = {
                      "must-pass-through of the top-up in submit, decision table of the top-up condition",
         "level": "Decides that the single insertion site of the worker table is guarded by len(table) < max_workers (strict), one insertion per "
                  "iteration after start(), that every accepting submit path reaches the top-up whose condition is true whenever the pool is "
-                 "short, that spawn callers hold the management lock, and that the worker runs one call at a time.",
-        "note": "Partial: the upper-bound clause is decided structurally; 'parallelism is actually delivered' is scheduling/performance and is not decided.",
+                 "short, that spawn callers hold the management lock, that the worker runs one call at a time, and that the capacity term of the "
+                 "call queue is at least max_workers in force (evaluated over sample sizes; the manager is not woken when a worker takes an item).",
+        "note": "Partial: the upper-bound clause is decided structurally; of 'parallelism is actually delivered' only the necessary conditions top-up, "
+                "respawn count and queue capacity are decided (known finding D18: the reusable executor's capacity 2*cpu_count()+1 ignores max_workers).",
     },
     "C03": {
         "ref": "DESIGN.md section 4 C03",
@@ -66,7 +68,8 @@ CATALOG = {
                  "queued id and the pre-increment counter are one term; fn/args/kwargs travel one-to-one and the call item computes "
                  "fn(*args, **kwargs) of its own fields; value and exception fields are never swapped and are reported under the running item's id; "
                  "the manager resolves the item popped under that id with the matching field; exactly one dispatch site, on the manager thread, "
-                 "only when set_running_or_notify_cancel() is true, fed by a consuming get; no re-queue; no retry in the worker.",
+                 "only when set_running_or_notify_cancel() is true, fed by a consuming get; no re-queue; no retry in the worker; failure vs success is "
+                 "chosen by identity of the exception field, not its truth value; wrapped callables are rebuilt from their own pickled object.",
         "note": "Partial: map(...) == list(map(...)) for every chunksize/length, order of the chunk chain and execution counts under respawn are "
                 "runtime values and are NOT decided (an AST match on the reverse/pop idiom would be a frozen fragment).",
     },
@@ -78,7 +81,9 @@ CATALOG = {
                  "reports under the task's own id and neither re-raises nor leaves the loop; that the feeder pickles before taking the pipe lock, "
                  "releases it in finally, and on error releases the queue slot and calls the hook on every continuation; that the hook fails only "
                  "its own future with PicklingError/RuntimeError + cause, wakes the manager and never flags broken / kills; that the remote "
-                 "traceback is attached as __cause__ of the task's own exception object.",
+                 "traceback is attached as __cause__ of the task's own exception object; that the task's exception travels through the "
+                 "pickling-safe send; that the feeder's silent IndexError handler covers the buffer pop only; that no unguarded f-string / "
+                 "repr / str of a user object is evaluated on the worker loop, the manager or the feeder hook.",
         "note": "Partial: containment is decided as control-flow/effect structure; the values of sibling outcomes and send_bytes size limits are not.",
     },
     "C06": {
@@ -87,8 +92,8 @@ CATALOG = {
                      "fail-then-kill, kill-tree enumeration-before-kill order in both implementations",
         "level": "Decides that kill_workers=True reaches the flag (and is not reset by the manager), that on the flag's branch every pending item is "
                  "atomically removed and failed with ShutdownExecutorError before the kill, that the kill empties the worker table and kills every "
-                 "tree with children enumerated before their parent dies and reaped afterwards, after which the manager leaves through the "
-                 "empty-pending exit.",
+                 "tree with children enumerated before their parent dies and reaped afterwards (a blocking waitpid, not a wait on the inheritable "
+                 "sentinel pipe), after which the manager leaves through the empty-pending exit.",
         "note": "Partial: wall-clock promptness and the behaviour of psutil/pgrep are not decided.",
     },
     "C09": {
